@@ -15,6 +15,7 @@ pub mod c11;
 pub mod c12;
 pub mod c13;
 pub mod c14;
+pub mod c15;
 pub mod c16;
 
 pub struct Entry {
@@ -38,5 +39,6 @@ pub static REGISTRY: &[Entry] = &[
     Entry { id: "C12", run: c12::run_check, replay: c12::replay },
     Entry { id: "C13", run: c13::run_check, replay: c13::replay },
     Entry { id: "C14", run: c14::run_check, replay: c14::replay },
+    Entry { id: "C15", run: c15::run_check, replay: c15::replay },
     Entry { id: "C16", run: c16::run_check, replay: c16::replay },
 ];
